@@ -90,6 +90,11 @@ func (c *compiler) updateEnterBlock(enter *enterBlock) {
 	if scope.dynLookup {
 		stashSize = len(scope.bindings)
 		enter.names = scope.makeNamesMap()
+		for _, b := range scope.bindings {
+			if b.noStash {
+				stackSize++
+			}
+		}
 	} else {
 		for _, b := range scope.bindings {
 			if b.inStash {
@@ -1058,6 +1063,7 @@ func (c *compiler) compileSwitchStatement(v *ast.SwitchStatement, needResult boo
 			scope:    c.scope,
 			isConst:  true,
 			isStrict: true,
+			noStash:  true, // the discriminant is already on the stack when the block is entered
 		}
 		bb[0] = db
 		c.scope.bindings = bb
